@@ -35,7 +35,23 @@ pub fn judge(op: Op, a: [f64; 2], b: [f64; 2]) -> Verdict {
     Verdict::Pass
 }
 
+pub const EXT_NAMES: [&str; 15] = ["from_i128", "from_u128", "from_i64", "from_u64", "to_i128", "to_u128", "to_i64", "to_u64", "to_i32", "to_u8", "compare", "compare_f64", "format", "validity_and_sign_queries", "to_f64_f32"];
+
+/// conversions, comparisons, text, validity: the same call in both configurations
+pub fn judge_ext(kind: u8, a: [f64; 2], b: [f64; 2]) -> Verdict {
+    let r1 = st::ext(kind, a, b);
+    let r2 = ns::ext(kind, a, b);
+    if r1 != r2 {
+        let args = [a[0].to_bits(), a[1].to_bits(), b[0].to_bits(), b[1].to_bits()];
+        return Verdict::fail("configurations_agree", EXT_NAMES[kind as usize], &args, format!("no_std: {:?}", r2), format!("std: {:?}", r1), "configs_differ");
+    }
+    Verdict::Pass
+}
+
 pub fn replay(call: &str, _clause: &str, args: &[u64]) -> Verdict {
+    if let Some(k) = EXT_NAMES.iter().position(|n| *n == call) {
+        return judge_ext(k as u8, [f64::from_bits(args[0]), f64::from_bits(args[1])], [f64::from_bits(args[2]), f64::from_bits(args[3])]);
+    }
     let op = Op::from_name(call).expect("unknown op");
     judge(op, [f64::from_bits(args[0]), f64::from_bits(args[1])], [f64::from_bits(args[2]), f64::from_bits(args[3])])
 }
@@ -85,6 +101,12 @@ pub fn run(r: &mut Runner) {
             }
             for (k, e) in [-1000i32, -3, 0, 2, 3, 17, 1000, i32::MAX].iter().enumerate() {
                 rec.record(l, (i * 64 + 50 + k) as u64, judge(Op::powi, xs[i], [*e as f64, 0.0]));
+            }
+            // non-TwoFloat results: conversions (the operand words double as integer bit patterns), comparisons
+            // against a neighbour, text, validity queries
+            let nb = xs[(i * 7 + 1) % n];
+            for kind in 0..15u8 {
+                rec.record(l, (1u64 << 45) + (i * 16 + kind as usize) as u64, judge_ext(kind, xs[i], nb));
             }
         }
     });
